@@ -1,10 +1,16 @@
 package legs
 
 import (
+	"container/list"
 	"fmt"
 	"math/rand"
 	"os"
+	"reflect"
+	"runtime"
+	"runtime/debug"
+	"strings"
 	"time"
+	"unsafe"
 
 	"rvharness/internal/callmix"
 	"rvharness/internal/core"
@@ -247,6 +253,252 @@ func c12Check(c *core.Ctx, cases []c12Case) []core.Outcome {
 	return outs
 }
 
+// Leg L: the replacement cache against the Lean LRU model ------------------------------------------------
+//
+// The cache is not reachable through the API or the verif hooks; the harness reads it by reflection
+// (fields replaceCache.ll / .cache, entry field key). If those names change the probe fails and the
+// leg reports a correspondence break, which is the right outcome: the model no longer describes the code.
+
+type c12LRUCase struct {
+	MaxEntries int   `json:"maxEntries"` // OptionMaxCachedReplacerDataEntries (0 and negative: no cache is created)
+	Keys       []int `json:"keys"`       // indices into callmix.Replacements
+}
+
+func c12CacheKeys(re *regexp2.Regexp) (keys []string, mapLen int, err error) {
+	defer func() {
+		if r := recover(); r != nil {
+			err = fmt.Errorf("reflection probe of Regexp.replaceCache failed: %v", r)
+		}
+	}()
+	v := reflect.ValueOf(re).Elem().FieldByName("replaceCache")
+	if !v.IsValid() {
+		return nil, 0, fmt.Errorf("Regexp has no field replaceCache")
+	}
+	if v.IsNil() {
+		return nil, -1, nil
+	}
+	c := v.Elem()
+	ll := c.FieldByName("ll")
+	cache := c.FieldByName("cache")
+	if !ll.IsValid() || !cache.IsValid() || ll.Type() != reflect.TypeOf((*list.List)(nil)) {
+		return nil, 0, fmt.Errorf("replacerDataCache has no ll *list.List / cache fields")
+	}
+	l := (*list.List)(ll.UnsafePointer())
+	for e := l.Front(); e != nil; e = e.Next() {
+		ev := reflect.ValueOf(e.Value)
+		if ev.Kind() == reflect.Pointer {
+			ev = ev.Elem()
+		}
+		k := ev.FieldByName("key")
+		if !k.IsValid() || k.Kind() != reflect.String {
+			return nil, 0, fmt.Errorf("cache entry has no string field key")
+		}
+		keys = append(keys, k.String())
+	}
+	return keys, cache.Len(), nil
+}
+
+func c12LRUGen(rng *rand.Rand, i int) c12LRUCase {
+	cs := c12LRUCase{MaxEntries: []int{16, 16, 1, 2, 3, 5, 0, -1, 40}[rng.Intn(9)]}
+	n := 10 + rng.Intn(80)
+	span := 2 + rng.Intn(len(callmix.Replacements)-1) // how many distinct replacements the sequence draws from
+	for len(cs.Keys) < n {
+		k := rng.Intn(span)
+		if rng.Intn(12) == 0 {
+			k = len(callmix.Replacements) - 1 // the one longer than MaxCachedReplacerDataBytes
+		}
+		cs.Keys = append(cs.Keys, k)
+	}
+	return cs
+}
+
+func c12LRUCheck(c *core.Ctx, cases []c12LRUCase) []core.Outcome {
+	outs := make([]core.Outcome, len(cases))
+	lines := make([]string, len(cases))
+	goAns := make([]string, len(cases))
+	index := map[string]int{}
+	for i, r := range callmix.Replacements {
+		index[r] = i
+	}
+	for i, cs := range cases {
+		o := &outs[i]
+		o.Key = fmt.Sprint(cs.MaxEntries, cs.Keys)
+		distinct := map[int]bool{}
+		for _, k := range cs.Keys {
+			distinct[k] = true
+		}
+		o.Nontrivial = len(distinct) >= 2
+		o.Buckets = append(o.Buckets, fmt.Sprintf("max=%d", cs.MaxEntries))
+		if cs.MaxEntries > 0 && len(distinct) > cs.MaxEntries {
+			o.Buckets = append(o.Buckets, "more-distinct-keys-than-entries")
+		}
+		re, err := regexp2.Compile(`(\w+) (?<who>\w+)`, regexp2.OptionMaxCachedReplacerDataEntries(cs.MaxEntries))
+		if err != nil {
+			o.Fail = &core.Failure{Kind: "correspondence-break", Key: "lru-compile", Summary: err.Error()}
+			continue
+		}
+		var trace []string
+		var uncacheable, unparsable []int
+		seenU, seenE := map[int]bool{}, map[int]bool{}
+		for _, k := range cs.Keys {
+			k = ((k % len(callmix.Replacements)) + len(callmix.Replacements)) % len(callmix.Replacements)
+			repl := callmix.Replacements[k]
+			want, werr := func() (string, error) {
+				iso, _ := regexp2.Compile(`(\w+) (?<who>\w+)`, regexp2.OptionMaxCachedReplacerDataEntries(0))
+				return iso.Replace("ab cd", repl, -1, -1)
+			}()
+			got, gerr := re.Replace("ab cd", repl, -1, -1)
+			if got != want || (gerr == nil) != (werr == nil) {
+				o.Fail = &core.Failure{Kind: "impl-violation", Key: "lru-result", Summary: "Replace through the cache differs from Replace without a cache", Expected: want, Got: got}
+				break
+			}
+			if gerr != nil && !seenE[k] {
+				seenE[k] = true
+				unparsable = append(unparsable, k)
+			}
+			if len(repl) > 4<<10 && !seenU[k] {
+				seenU[k] = true
+				uncacheable = append(uncacheable, k)
+			}
+			keys, mapLen, perr := c12CacheKeys(re)
+			if perr != nil {
+				o.Fail = &core.Failure{Kind: "correspondence-break", Key: "lru-probe", Summary: perr.Error()}
+				break
+			}
+			if mapLen >= 0 && mapLen != len(keys) {
+				o.Fail = &core.Failure{Kind: "correspondence-break", Key: "lru-map-list-mismatch", Summary: "the cache's map and list disagree in size (the model keeps them identical)", Expected: fmt.Sprint(len(keys)), Got: fmt.Sprint(mapLen)}
+				break
+			}
+			idx := make([]int, len(keys))
+			for j, ks := range keys {
+				idx[j] = index[ks]
+			}
+			trace = append(trace, core.SInts(idx))
+		}
+		goAns[i] = core.S("ok", trace...)
+		mx := cs.MaxEntries
+		if mx < 0 {
+			mx = 0 // initCaches creates a cache only for MaxCachedReplacerDataEntries > 0
+		}
+		ks := make([]int, len(cs.Keys))
+		for j, k := range cs.Keys {
+			ks[j] = ((k % len(callmix.Replacements)) + len(callmix.Replacements)) % len(callmix.Replacements)
+		}
+		lines[i] = core.S("c12", "lru", fmt.Sprint(mx), core.SInts(uncacheable), core.SInts(unparsable), core.SInts(ks))
+	}
+	res, err := c.RunDriver(lines)
+	if err != nil {
+		for i := range outs {
+			if outs[i].Fail == nil {
+				outs[i].Fail = core.DriverFailure(err)
+				break
+			}
+		}
+		return outs
+	}
+	for i := range cases {
+		if outs[i].Fail == nil && res[i] != goAns[i] {
+			outs[i].Fail = &core.Failure{Kind: "correspondence-break", Key: "lru-order", Summary: "key order of the replacement cache after each Replace differs from the Lean LRU model", Expected: res[i], Got: goAns[i]}
+		}
+	}
+	return outs
+}
+
+// Leg P: poolIndex/get against the Lean pool model, observed through allocation volume -------------------
+//
+// The pools are package-level variables without a hook. What is observable: with the pools emptied
+// (two GCs), the first MatchString on an n-byte input allocates one buffer of the class capacity (4 bytes
+// per rune; 4 KiB..1 MiB, far above the ~2 KiB of a new runner), the second allocates nothing; without
+// pooling both allocate about 4n bytes.
+
+type c12PoolCase struct {
+	Needed int `json:"needed"`
+	Max    int `json:"max"`
+}
+
+func c12PoolGen(rng *rand.Rand, i int) c12PoolCase {
+	edges := []int{1 << 10, 4 << 10, 16 << 10, 64 << 10, 256 << 10}
+	e := edges[rng.Intn(len(edges))]
+	n := e + []int{0, 1, -1, -rng.Intn(e / 2), rng.Intn(e)}[rng.Intn(5)]
+	if rng.Intn(6) == 0 {
+		n = 400 + rng.Intn(600)
+	}
+	mx := []int{-1, -1, 0, 1, 1000, 1024, 1025, 4096, 5000, 16384, 65536, 65537, 262144, 300000}[rng.Intn(14)]
+	return c12PoolCase{Needed: n, Max: mx}
+}
+
+func c12Probe(re *regexp2.Regexp, s string) (d1, d2 uint64) {
+	// one P: sync.Pool's per-P arrays (128 bytes per P and pool, reallocated after every GC) stay small,
+	// which keeps everything except the rune buffer below 4 KiB
+	defer runtime.GOMAXPROCS(runtime.GOMAXPROCS(1))
+	old := debug.SetGCPercent(-1)
+	defer debug.SetGCPercent(old)
+	runtime.GC()
+	runtime.GC()
+	var m0, m1, m2 runtime.MemStats
+	runtime.ReadMemStats(&m0)
+	_, _ = re.MatchString(s)
+	runtime.ReadMemStats(&m1)
+	_, _ = re.MatchString(s)
+	runtime.ReadMemStats(&m2)
+	return m1.TotalAlloc - m0.TotalAlloc, m2.TotalAlloc - m1.TotalAlloc
+}
+
+func c12PoolCheck(c *core.Ctx, cases []c12PoolCase) []core.Outcome {
+	outs := make([]core.Outcome, len(cases))
+	lines := make([]string, len(cases))
+	goAns := make([]string, len(cases))
+	for i, cs := range cases {
+		o := &outs[i]
+		o.Key = fmt.Sprint(cs.Needed, "/", cs.Max)
+		o.Nontrivial = true
+		re, err := regexp2.Compile(`\d`, regexp2.OptionMaxCachedRuneBufferLength(cs.Max))
+		if err != nil {
+			o.Fail = &core.Failure{Kind: "correspondence-break", Key: "pool-compile", Summary: err.Error()}
+			continue
+		}
+		s := strings.Repeat("a", cs.Needed)
+		_, _ = re.MatchString("a") // allocate the runner's own storage once (it is dropped by the GCs again, but code paths are warm)
+		obs := "inconclusive"
+		var d1, d2 uint64
+		for try := 0; try < 3 && obs == "inconclusive"; try++ {
+			d1, d2 = c12Probe(re, s)
+			switch {
+			case d2 < 600 && d1 >= 4096:
+				obs = fmt.Sprint(int(d1/4096) * 1024) // class capacity in runes
+			case d2 >= uint64(cs.Needed)*4 && d1 >= uint64(cs.Needed)*4:
+				obs = "-1"
+			}
+		}
+		if obs == "inconclusive" {
+			o.Buckets = append(o.Buckets, "measurement-inconclusive")
+			goAns[i] = ""
+		} else {
+			goAns[i] = core.S("ok", obs)
+			if obs == "-1" {
+				o.Buckets = append(o.Buckets, "observed:unpooled")
+			} else {
+				o.Buckets = append(o.Buckets, "observed:class-"+obs)
+			}
+		}
+		lines[i] = core.S("c12", "pool", "rune", fmt.Sprint(cs.Needed), fmt.Sprint(cs.Max))
+		_ = d1
+	}
+	res, err := c.RunDriver(lines)
+	if err != nil {
+		outs[0].Fail = core.DriverFailure(err)
+		return outs
+	}
+	for i := range cases {
+		if outs[i].Fail == nil && goAns[i] != "" && res[i] != goAns[i] {
+			outs[i].Fail = &core.Failure{Kind: "correspondence-break", Key: "pool-class", Summary: "size class observed through allocation volume differs from the Lean poolIndex/get model", Expected: res[i], Got: goAns[i]}
+		}
+	}
+	return outs
+}
+
+var _ = unsafe.Pointer(nil)
+
 func init() {
 	core.Register("C12", func(c *core.Ctx) {
 		regexp2.SetTimeoutCheckPeriod(callmix.ClockPeriod)
@@ -287,6 +539,18 @@ func init() {
 			Name: "Hs", Kind: "oracle",
 			Rule:   "random call histories (20-60 calls; thorough: some of 100-300) over 18 shared Regexps (balancing groups, bool-only-eligible patterns, stack-limited and timed patterns, RTL, sparse groups, pooling/caching disabled or tightened); each call = entry point (MatchString, MatchRunes, FindStringMatch/FindRunesMatch(+StartingAt) with FindNextMatch chains, chains kept open across other calls, FindAllStringIndex/RunesIndex, Replace with 43 distinct replacements, ReplaceFunc, Split) x input (8 shapes, byte length around the pool classes 1K/4K/16K, some 64K, thorough 256K); oracle: canonical result (value, error class, all captures) equals the same call on a Regexp compiled for that call alone with pooling and caching switched off (nothing reused), and on one compiled with the same options; VerifRunnerSnapshot invariant after each call; matches handed out earlier are unchanged at the end. Non-trivial = at least 2 calls",
 			Corpus: corpus, N: c.N(300, 8000), Gen: c12Gen(c.Thorough()), Check: c12Check, Batch: 64,
+		})
+		core.RunLeg(c, core.Leg[c12LRUCase]{
+			Name: "L", Kind: "correspondence",
+			Rule:   "sequences of 10-89 Replace calls on one Regexp whose replacements are drawn from the first 2..43 entries of the replacement table (1 in 12: the 4.8K replacement that is over the cacheable size), cache size in {16,1,2,3,5,40, 0 and -1 = no cache}; after every call the cache's key order (read by reflection: replaceCache.ll, entry.key; map size = list length) equals the key order of the Lean model's getReplacerData run on the same key sequence; each result also equals Replace on a cache-less Regexp. Non-trivial = at least 2 distinct keys",
+			Corpus: []c12LRUCase{{MaxEntries: 2, Keys: []int{1, 2, 1, 3, 2}}, {MaxEntries: 16, Keys: []int{0, 1, 2, 3, 4, 5, 6, 7, 8, 9, 10, 11, 12, 13, 14, 15, 16, 0, 17, 1, 42, 42, 23}}},
+			N:      c.N(300, 6000), Gen: c12LRUGen, Check: c12LRUCheck,
+		})
+		core.RunLeg(c, core.Leg[c12PoolCase]{
+			Name: "P", Kind: "correspondence",
+			Rule:   "(needed, max) pairs: needed around the rune-pool class sizes 1K/4K/16K/64K/256K (exact, +-1, up to half below, up to double), max (OptionMaxCachedRuneBufferLength) in {-1,0,1,1000,1024,1025,4096,5000,16384,65536,65537,262144,300000}; Go side: with the pools emptied by two GCs and the GC switched off, bytes allocated by a first and a second MatchString on an input of `needed` bytes: second ~0 and first in [class*4, class*4+4K) = pooled in that class, both >= 4*needed = not pooled; Lean side: capacity of the class poolIndex chooses (or -1). Inconclusive measurements are counted, not failed. Non-trivial: all",
+			Corpus: []c12PoolCase{{Needed: 1024, Max: -1}, {Needed: 1025, Max: -1}, {Needed: 2000, Max: 1024}, {Needed: 500, Max: 0}, {Needed: 300000, Max: -1}},
+			N:      c.N(150, 1500), Gen: c12PoolGen, Check: c12PoolCheck, Batch: 100,
 		})
 	})
 }
